@@ -731,6 +731,23 @@ def check_batch(rec, bm, obs, x2, g, p):
                 return
         if any(np.isnan(a) for a, _ in singles) and not all(np.isnan(a) for a, _ in singles):
             rec.count("predict.batch_mixed_support")
+        # call history on one caller-owned observation buffer (vt/monitors/history.py): the batch is
+        # reversed in place between two calls that pass the same array object
+        from vt.monitors import history
+        for name, fn, args in (("predict", bm.predict, (np.array(obs, dtype=float), x2)),
+                               ("weights", bm.weights, (np.array(obs[0], dtype=float).reshape(1, -1), x2)),
+                               ):
+            if name == "weights" and obs.shape[1] < 2:
+                continue
+            if name == "weights":
+                # a (1, m) row: reverse along the channel axis instead (an (m,) vector is what is updated)
+                args = (np.array(obs[0], dtype=float), x2)
+            rec.ev()
+            verdict, detail = history.reuse_check(fn, args)
+            rec.count("history.reuse_" + verdict.replace("/", ""))
+            if verdict == "stale":
+                rec.violation("bmci-stale-state", case, dict(detail, method=name))
+                return
     except Exception as exc:
         rec.violation("bmci-exception", case, {"method": "predict (batch)", "exception": repr(exc)})
 
